@@ -323,6 +323,7 @@ class Ctx:
         self.site_obligs = []  # (name, term, pc-snapshot-length) raised at call sites
         self.inputs = {}  # name -> z3 const (for models / known-finding classes)
         self.notes = []
+        self.observe = {}  # name -> engine value, evaluated under witness / counter models
         self.solver_s = 0.0
         self.nchecks = 0
 
